@@ -918,12 +918,12 @@ fn mark_hidden(rng: &mut Rng, v: &[H], hide_prob: usize, mode: usize, hidden_ids
                     at.retain(|(k, _)| k != "class" && k != "style");
                     match mode {
                         0 => at.push(("class".into(), "hide".into())),
-                        1 => at.push(("style".into(), "display:none".into())),
+                        1 => at.push(("style".into(), rng.pick(&["display:none", "display: none;", "color:#00f;display:none", "color:#00f;;display:none", "color: #00f ; ; display : none ;;", "frob:1;display:none;color:red", "display:none !important", "display:block;display:none"]).to_string())),
                         2 => {
                             // the zero-height + hidden-overflow idiom in every spelling and order
                             let h = *rng.pick(&["height:0", "height: 0px", "max-height:0", "max-height: 0em", "height:0 !important"]);
                             let o = *rng.pick(&["overflow:hidden", "overflow-y: hidden", "overflow: hidden"]);
-                            let mid = *rng.pick(&["", "", "color:red;", "width:10px;"]);
+                            let mid = *rng.pick(&["", "", "color:red;", "width:10px;", ";", " ; ;"]);
                             let st = if rng.chance(1, 2) { format!("{};{}{}", h, mid, o) } else { format!("{};{}{}", o, mid, h) };
                             at.push(("style".into(), st));
                         }
@@ -1006,7 +1006,8 @@ fn gen_c18(tier: &str, rng: &mut Rng) -> Vec<Case> {
         match mode {
             0 => {
                 let sel = *rng.pick(&[".hide", "*.hide", "div .hide, .hide"]);
-                cfg.user_css.push(format!("{} {{ display: none; }}", sel));
+                let body = *rng.pick(&["display: none;", "display:none", "color: red;; display: none", "color:red ; display:none ;;", "height: 0;; overflow: hidden", "overflow:hidden;color:red;max-height:0"]);
+                cfg.user_css.push(format!("{} {{ {} }}", sel, body));
             }
             1 | 2 => {
                 cfg.doc_css = true;
